@@ -574,11 +574,18 @@ func faultScenario(kind, fault string, rng *rand.Rand) {
 	}
 	expect := "any"
 	tr.Emit("sc.begin", "sc", sc, "tr", kind, "fault", fault)
+	bigQueries := fault == "stalebig"
 	one := func(deadline time.Duration, want string) {
 		ex := int(exCtr.Add(1))
 		q := new(dns.Msg)
 		q.SetQuestion(exName(ex), dns.TypeA)
 		q.Id = uint16(rng.Intn(65536))
+		if bigQueries { // a query of some 700 octets (EDNS padding)
+			o := &dns.OPT{Hdr: dns.RR_Header{Name: ".", Rrtype: dns.TypeOPT}}
+			o.SetUDPSize(1232)
+			o.Option = append(o.Option, &dns.EDNS0_PADDING{Padding: make([]byte, 640)})
+			q.Extra = append(q.Extra, o)
+		}
 		w, _ := q.Pack()
 		ctx, cancel := context.WithTimeout(context.Background(), deadline)
 		defer cancel()
@@ -626,7 +633,7 @@ func faultScenario(kind, fault string, rng *rand.Rand) {
 		one(600*time.Millisecond, expect)
 		s.fault.Store("")
 		one(600*time.Millisecond, "reply") // the server is healthy again: a new connection must work
-	case "stale":
+	case "stale", "stalebig":
 		one(800*time.Millisecond, "reply")
 		s.fault.Store("closeafter")
 		one(800*time.Millisecond, "reply")
@@ -856,7 +863,7 @@ func modeFault(thorough bool) {
 	onlyEvents = map[string]bool{} // hook and server events are not needed here
 	rng := rand.New(rand.NewSource(seed))
 	kinds := []string{"udp", "tcp", "tcp+pipeline", "tls", "tls+pipeline", "https", "quic", "h3"}
-	faults := []string{"refuse", "silent", "noreply", "half", "garbage", "fin", "rst", "stall", "stale", "kill", "sndbuf", "sndbuf2", "sndbuf3", "eol", "restart", "garbage2nd", "halfsteady", "streamlimit"}
+	faults := []string{"refuse", "silent", "noreply", "half", "garbage", "fin", "rst", "stall", "stale", "kill", "sndbuf", "sndbuf2", "sndbuf3", "eol", "restart", "garbage2nd", "halfsteady", "streamlimit", "stalebig"}
 	var wg sync.WaitGroup
 	sem := make(chan struct{}, 6)
 	only := map[string]bool{}
@@ -870,7 +877,7 @@ func modeFault(thorough bool) {
 			if len(only) > 0 && !only[f] {
 				continue
 			}
-			if k == "udp" && (f == "fin" || f == "rst" || f == "stale" || f == "stall" || f == "kill" || f == "sndbuf" || f == "sndbuf2" || f == "sndbuf3") {
+			if k == "udp" && (f == "fin" || f == "rst" || f == "stale" || f == "stalebig" || f == "stall" || f == "kill" || f == "sndbuf" || f == "sndbuf2" || f == "sndbuf3") {
 				continue
 			}
 			if f == "garbage2nd" && !(k == "tcp" || k == "tcp+pipeline" || k == "tls" || k == "tls+pipeline") {
